@@ -182,6 +182,20 @@ def run(ctx):
         want = jsonpatch.JsonPatch(ops).apply(copy.deepcopy(frozen))
         if dict(out) != want:
             ctx.fail('C17/apply', 'apply does not return the JSON patch applied to the workspace', {'workspace': frozen, 'ops': ops})
+        # every listed digest counts: with two algorithms listed, one wrong recorded digest (either one, either listing order) must fail
+        # verification and refuse the patch, although the other digest matches
+        if len(digests) == 2:
+            for wrong in ('sha256', 'md5'):
+                for order in (('sha256', 'md5'), ('md5', 'sha256')):
+                    dg2 = {a: (digests[a] if a != wrong else ('0' * len(digests[a]) if digests[a][0] != '0' else '1' * len(digests[a]))) for a in order}
+                    ps2 = pyhf.PatchSet(dict(doc, metadata=dict(doc['metadata'], digests=dg2)))
+                    ctx.count(); ctx.tally('one_wrong_digest', f'{wrong}-wrong/{order[0]}-first')
+                    for what, call in (('verify', lambda: ps2.verify(ws)), ('apply', lambda: ps2.apply(ws, 'name'))):
+                        try:
+                            call()
+                            ctx.fail('C17/verify-every-digest', f'{what} succeeds although the recorded {wrong} digest differs from the workspace\'s', {'workspace': ws, 'digests': dg2, 'call': what})
+                        except pyhf.exceptions.PatchSetVerificationError:
+                            pass
         # every single-leaf corruption must be detected
         lv = list(leaves(ws))
         for path, val in (lv if ctx.thorough else rng.sample(lv, min(25, len(lv)))):
